@@ -367,8 +367,23 @@ class SpecOracle:
                 [helper.make_tensor_value_info("y", TensorProto.FLOAT, None)])
             m = helper.make_model(g, opset_imports=[helper.make_opsetid("", 18)], ir_version=8)
             self.sess[("expand", rank)] = ort.InferenceSession(m.SerializeToString(), so, providers=["CPUExecutionProvider"])
+        g = helper.make_graph(
+            [helper.make_node("Gather", ["x", "i"], ["y"], axis=0)], "g",
+            [helper.make_tensor_value_info("x", TensorProto.INT64, [None]), helper.make_tensor_value_info("i", TensorProto.INT64, [None])],
+            [helper.make_tensor_value_info("y", TensorProto.INT64, None)])
+        m = helper.make_model(g, opset_imports=[helper.make_opsetid("", 18)], ir_version=8)
+        self.sess[("gather",)] = ort.InferenceSession(m.SerializeToString(), so, providers=["CPUExecutionProvider"])
         self.ro = ort.RunOptions()
         self.ro.log_severity_level = 4
+
+    def gather(self, l, idx):
+        import numpy as np
+
+        try:
+            y = self.sess[("gather",)].run(None, {"x": np.array(l, np.int64), "i": np.array(idx, np.int64)}, self.ro)[0]
+            return L.enc_ints(y.tolist())
+        except Exception:
+            return "N"
 
     def reshape(self, inp, tgt, az):
         import numpy as np
@@ -446,5 +461,8 @@ def gen_spec_cases(rng, S: SpecOracle, n: int):
                     lambda fl=fl, ax=ax: L.enc_ints([int(np.prod(fl[:ax])) if fl[:ax] else 1, int(np.prod(fl[ax:])) if fl[ax:] else 1])))
         st = rng.randint(-5, 5)
         en = rng.choice([None, rng.randint(-5, 5)])
+        gl = [rng.randint(-3, 9) for _ in range(rng.randint(1, 4))]
+        gi = [rng.randint(-len(gl) - 1, len(gl)) for _ in range(rng.randint(0, 3))]
+        out.append(("spec_gather", f"gatherSpec {L.enc_ints(gl)} {L.enc_ints(gi)}", lambda a=gl, b=gi: S.gather(a, b)))
         out.append(("spec_shape_slice", f"shapeSlice {L.enc_ints(fl)} {st} {L.enc_oint(en)}", lambda fl=fl, st=st, en=en: L.enc_ints(fl[st:en])))
     return out
